@@ -146,6 +146,13 @@ def hook_packages(
     # ....................{ HOOKS                          }....................
     # With a submodule-specific thread-safe reentrant lock...
     with claw_lock:
+        # ....................{ CONFLICTS                  }....................
+        # Raise an exception *BEFORE* mutating any global state if this
+        # configuration conflicts with a configuration previously registered
+        # for any of these packages, preserving the registry as it was.
+        _die_if_packages_conf_conflict(
+            claw_coverage=claw_coverage, package_names=package_names, conf=conf)
+
         # ....................{ BLACKLIST                  }....................
         # If blacklisting one or more packages from type-checking, do so.
         # print(f'Blacklisting packages: {repr(conf.claw_skip_package_names)}')
@@ -173,6 +180,72 @@ def hook_packages(
         #   hook subsequently calls the companion get_package_conf_or_none()
         #   function, which accesses that trie.
         add_beartype_path_hook()
+
+# ....................{ PRIVATE ~ raisers                  }....................
+def _die_if_packages_conf_conflict(
+    claw_coverage: BeartypeClawCoverage,
+    package_names: Optional[IterableStrs],
+    conf: BeartypeConf,
+) -> None:
+    '''
+    Raise an exception if the passed beartype configuration conflicts with a
+    beartype configuration previously registered for any of the packages to be
+    hooked, *without* modifying the global package tries.
+
+    This validator guarantees hook registration to be atomic: a conflicting
+    registration leaves the registry exactly as it was.
+
+    Caveats
+    -------
+    **This function is only safely callable in a thread-safe manner from within
+    a** ``with claw_lock:`` **context manager.**
+
+    Raises
+    ------
+    BeartypeClawHookException
+        If one or more of these packages have already been registered by a
+        previous call to this function under a conflicting configuration.
+    '''
+
+    # Avoid circular import dependencies.
+    from beartype.claw._clawstate import claw_state
+
+    # If type-checking *ALL* packages, defer to the existing validation (which
+    # raises this exception before modifying the whitelist) if a conflicting
+    # global configuration has already been registered.
+    if claw_coverage is BeartypeClawCoverage.PACKAGES_ALL:
+        conf_curr = claw_state.packages_trie_whitelist.conf_if_hooked
+        if conf_curr is not None and conf_curr != conf:
+            _whitelist_packages_all(conf)
+        return
+
+    # For the fully-qualified name of each package to be type-checked...
+    for package_name in package_names:  # type: ignore[union-attr]
+        # Subtrie describing this package if any *OR* "None" otherwise.
+        subpackages_trie_whitelist: Optional[PackagesTrieWhitelist] = (
+            claw_state.packages_trie_whitelist)
+        for package_basename in package_name.split('.'):
+            subpackages_trie_whitelist = subpackages_trie_whitelist.get(  # type: ignore[union-attr]
+                package_basename)
+            if subpackages_trie_whitelist is None:
+                break
+        # If this package was previously registered...
+        else:
+            conf_curr = subpackages_trie_whitelist.conf_if_hooked  # type: ignore[union-attr]
+
+            # If that configuration conflicts with this one, raise an exception.
+            if conf_curr is not None and conf_curr != conf:
+                raise BeartypeClawHookException(
+                    f'Beartype import hook '
+                    f'(e.g., beartype.claw.beartype_*() function) '
+                    f'previously passed conflicting beartype configuration for '
+                    f'package "{package_name}":\n'
+                    f'\t----------( OLD "conf" PARAMETER )----------\n'
+                    f'\t{repr(conf_curr)}\n'
+                    f'\t----------( NEW "conf" PARAMETER )----------\n'
+                    f'\t{repr(conf)}\n'
+                )
+
 
 # ....................{ PRIVATE ~ blacklisters             }....................
 #FIXME: Docstring us up, please.
